@@ -1,4 +1,5 @@
 import RP.Model.Bits
+import RP.Model.BitsGosper
 import RP.Gen.Consts
 import RP.Gen.C06
 /-! # Executable model of `HandIterator`, `ObservationIterator`, `IsomorphismIterator`
@@ -80,15 +81,16 @@ theorem not64_and (a b : Nat) (hb : b < 2^64) : not64 a &&& b = (a ^^^ b) &&& b 
       Nat.testBit_lt_two_pow (Nat.lt_of_lt_of_le hb (Nat.pow_le_pow_right (by omega) (by omega)))
     simp [this]
 
-/-- what the driver executes for `permute`: the same computation with `!a & b` fused, for words
-below `2^63`; kernel-checked equal to `permute` on every input (`permute_eq_fast`) -/
+/-- what the driver executes for `permute`: the same computation with `!a & b` fused and
+`trailing_zeros` taken as `log2` of the isolated lowest bit, for non-zero words below `2^63`;
+kernel-checked equal to `permute` on every input (`permute_eq_fast`) -/
 def permuteFast (x : Nat) : Nat :=
-  if x >>> 63 = 0 then
+  if x >>> 63 = 0 ∧ x ≠ 0 then
     let a := x ||| (x - 1)
     let b := a + 1
     let d := (a ^^^ b) &&& b
     let e := d - 1
-    let f := 1 + tzW 64 x
+    let f := 1 + Nat.log2 (x &&& (x ^^^ (x - 1)))
     let g := e >>> f
     b ||| g
   else
@@ -107,11 +109,12 @@ def permuteFast (x : Nat) : Nat :=
   split
   · next h =>
     have hx : x < 2^63 := by
-      rw [Nat.shiftRight_eq_div_pow] at h
-      exact Nat.lt_of_div_eq_zero (by decide) h
+      have h1 := h.1
+      rw [Nat.shiftRight_eq_div_pow] at h1
+      exact Nat.lt_of_div_eq_zero (by decide) h1
     have ha : x ||| (x - 1) < 2^63 := Nat.or_lt_two_pow hx (by omega)
     simp only []
-    rw [not64_and _ _ (by omega)]
+    rw [not64_and _ _ (by omega), tzW_eq_log2 x (by omega) (by omega)]
   · rfl
 
 structure HandIter where
